@@ -165,7 +165,9 @@ ScanPicture(p, i, lit, acc, day, ms, off) ==
                    ELSE LET j == CHOOSE j \in closeSet : \A k \in closeSet : j <= k
                             body == SubSeq(p, i + 1, j - 1)
                             mk == ParseMarker(body)
-                        IN  IF (\E k \in 1..Len(body) : body[k] = 91) \/ ~mk.ok THEN [ok |-> FALSE, ps |-> <<>>]
+                        \* the component letters of XPath: Y M D d F W w H h P m s f Z z C E ; any other letter is an error
+                        IN  IF (\E k \in 1..Len(body) : body[k] = 91) \/ ~mk.ok \/ mk.c \notin {89, 77, 68, 100, 70, 87, 119, 72, 104, 80, 109, 115, 102, 90, 122, 67, 69}
+                            THEN [ok |-> FALSE, ps |-> <<>>]
                             ELSE ScanPicture(p, j + 1, <<>>, (IF lit = <<>> THEN acc ELSE Append(acc, Lit(lit))) \o <<ComponentPiece(mk, day, ms, off)>>, day, ms, off))
     ELSE IF p[i] = 93 THEN
          (IF i < Len(p) /\ p[i + 1] = 93 THEN ScanPicture(p, i + 2, Append(lit, 93), acc, day, ms, off) ELSE [ok |-> FALSE, ps |-> <<>>])
@@ -210,6 +212,8 @@ FromMillisVerdict(day, ms, pic, hasPic, tz, hasTz, out) ==
     IN  IF ~O.ok THEN "error-expected"
         ELSE LET S == ScanPicture(p, 1, <<>>, <<>>, day, ms, O.off) IN
              IF ~S.ok \/ ~HasMarker(p) THEN "error-expected"
+             \* a component the specification leaves open may also be one the implementation does not support
+             ELSE IF \E i \in 1..Len(S.ps) : S.ps[i].k = "open" THEN (IF Matches(out, S.ps, 1) = "no" /\ out # <<>> THEN "no" ELSE "open")
              ELSE Matches(out, S.ps, 1)
 
 ---------------------------------------------------------------------------
